@@ -44,6 +44,9 @@ func main() {
 		"moving on meanwhile) with its sleeper pending, 1-3 look-ups of its key (Get of OnRequest, Has of OnResponse) stopped between their map read and " +
 		"their clock reading, the sleeper fired before / between / after them, every reader set x firing point, both resume orders; then a fill phase " +
 		"(equal-size responses for fresh keys, maximum = 2 or 2.5 entries) and a sweep (one request per key at one instant) whose replayed content is added up by the monitor. " +
+		"letter case (caching, throttle): pairs of URLs differing only in the letter case of a PATH segment (global remedy, exact endpoint, wildcard endpoint, " +
+		"equal selected path parameters with the difference under a wildcard, an unselected parameter differing) in both orders, probed across the expiry of the first, " +
+		"plus random histories over such families; pairs differing only in the letter case of the HOST are a separate class the monitors claim nothing about (counted). " +
 		"distinct = distinct (configuration, history, observed results); non-trivial = contains a replay and a " +
 		"probe at an expiry boundary, a size refusal or a stale sleeper firing")
 	runtime.Gosched()
@@ -110,6 +113,9 @@ func main() {
 		genThrottleHistory(o, rt, t0)
 	}
 	genJoinAmbiguity(o, t0)
+	genCachingLetterCase(o, o.Rng.Fork(8), t0)
+	genThrottleLetterCase(o, o.Rng.Fork(9), t0)
+	genCConcLetterCase(o, t0)
 	genCConc(o, rcc, t0)
 	genCConcExpiryRace(o, t0)
 	genCConcLookRandom(o, o.Rng.Fork(7), t0)
